@@ -61,6 +61,10 @@ CLAIMED = {
    text="Imports.tla enumerates importer x first edge (star / explicit / aliased / pytest_plugins with last-assignment-wins) x spelling (relative 1/2, absolute) x target (module, package __init__, module in package) x onward chains (self import, 2-cycle, re-exports); TLC checks RepairedEqualsRI; every case is materialised on disk and scanned by the real library, every name is resolved from the using file and compared with PyProvides, and the scan must have discovered the import closure. Plugins.tla enumerates venv layouts (dist-info/egg-info, module/package/missing target, regular/editable inside/outside, .pth naming, _pytest built-ins); the real scan's classification and resolution are compared with the specification.",
    note="364 import cases, 156 venv layouts; absolute imports judged only next to the importer; library-level is_third_party/is_plugin flags stand for symbol visibility.",
    technique="TLA+ case tables (TLC) + materialised trees scanned by the real library"),
+ "C15": dict(level=MC, ref="DESIGN.md section 4 C15",
+   text="Positions.tla gives the column algebra: a line is a sequence of pieces with declared UTF-8 / UTF-16 widths, the promised range of a token is the sum of UTF-16 widths before it (string usages: the literal's content); TLC checks RepairedExact / WellFormed and enumerates construct x preceding material x string form x name kind; every layout is rendered (declared widths re-checked against the text and against CPython's tokenisation), analysed by the real library under LF and CRLF, and the recorded range compared; the implementation model (byte sums, +-1 quote stripping, whole-string indirect names) must predict every deviation exactly. Structural rules of documentSymbol / definition / references responses are checked through the real binary on the C03 function corpus.",
+   note="163 layouts x 2 line endings + ~60 LSP sessions (quick); library-level fields are what handlers put into ranges.",
+   technique="TLA+ column algebra (TLC) + rendered layouts on the real analyzer + LSP structural checks"),
  "C16": dict(level=MC, ref="DESIGN.md section 4 C16",
    text="compute_fixture_cycles is transcribed step by step into TLA+ (explicit-stack DFS, root order) and TLC evaluates it on every dependency graph of the table; the per-definition reference graph (layer R) decides soundness and completeness of every reported cycle and the scope rule; every (graph, registration order) is replayed on the real library with 3 additional fresh databases for run-to-run stability; the model must predict the implementation's exact output.",
    note="<= 3 fixture names over 4 files, all parameter lists, all registration orders of defining files; scope universe: 5 scopes x dependency defined at up to 4 places.",
